@@ -7,6 +7,7 @@ from typing import Any
 
 from ..contexts import Ctx
 from ..objectmodel import nodedataclass
+from ..util import trim
 from .base import Leaf
 from .math import ffset
 
@@ -132,7 +133,11 @@ class Constant(Leaf):
 
     def _pretty(self, lean=False):
         _ = lean
-        return f'`{self.literal!s}`'
+        literal = str(self.literal)
+        if '\n' in literal:
+            # NOTE the multi-line form; evaluation trims the common indentation
+            return f'```{trim(literal)}```'
+        return f'`{literal}`'
 
     @cached_property
     def _nullable(self) -> bool:
